@@ -54,7 +54,7 @@ def run_pair(scns):
     out = []
     for s in scns:
         impl, rt = eng.run_impl(s)
-        out.append((s, eng.canon(impl), eng.model_obs(s, mod.get(s.name, ["<no model output>"])), rt))
+        out.append((s, eng.impl_obs(s, impl), eng.model_obs(s, mod.get(s.name, ["<no model output>"])), rt))
     return out
 
 
